@@ -34,8 +34,10 @@ fn bounded() -> i64 {
     v
 }
 /// A map with the given concrete key list (insertion order as listed) and symbolic values.
-fn sym_map(keys: &[CostTokenType]) -> CostTokenMap<i64> {
-    let mut m = CostTokenMap::<i64>::new();
+fn sym_map(keys: &[CostTokenType]) -> CostTokenMap<i64> { sym_map_cap(keys, 0) }
+/// Same, with `cap` slots reserved up front (capacity is not observable through the map's API).
+fn sym_map_cap(keys: &[CostTokenType], cap: usize) -> CostTokenMap<i64> {
+    let mut m = if cap == 0 { CostTokenMap::<i64>::new() } else { CostTokenMap::<i64>::with_capacity(cap) };
     for k in keys {
         m.insert(*k, bounded());
     }
@@ -43,8 +45,9 @@ fn sym_map(keys: &[CostTokenType]) -> CostTokenMap<i64> {
 }
 
 /// The whole contract of `GasWallet::update` on `Value(w)`.
-fn check_update(wkeys: &[CostTokenType], ckeys: &[CostTokenType]) {
-    let w = sym_map(wkeys);
+fn check_update(wkeys: &[CostTokenType], ckeys: &[CostTokenType]) { check_update_cap(wkeys, ckeys, 0) }
+fn check_update_cap(wkeys: &[CostTokenType], ckeys: &[CostTokenType], wcap: usize) {
+    let w = sym_map_cap(wkeys, wcap);
     let c = sym_map(ckeys);
     kani::cover!(true, "reach:update");
     let (wc, wp, cc, cp) = (val(&w, C), val(&w, P), val(&c, C), val(&c, P));
@@ -101,10 +104,19 @@ fn c04_update_w_0__c_c() {
 fn c04_update_w_0__c_p() {
     check_update(&[], &[P]);
 }
+// The empty wallet charged for both tokens. With an unallocated wallet Vec both entries are pushed through
+// Vec growth inside merge_collection (measured 390 s, > 10 GB): that variant is in the thorough tier, the
+// quick tier runs the same pattern with the wallet's two slots reserved up front.
 //@ bound="key universe {Const,Pedersen}, one harness per presence pattern; values symbolic |v| < 2^60"
 #[kani::proof]
 #[kani::unwind(4)]
 fn c04_update_w_0__c_cp() {
+    check_update_cap(&[], &[C, P], 2);
+}
+//@ tier=thorough timeout=3000 bound="key universe {Const,Pedersen}, one harness per presence pattern; values symbolic |v| < 2^60"
+#[kani::proof]
+#[kani::unwind(4)]
+fn c04_update_w_0_unallocated__c_cp() {
     check_update(&[], &[C, P]);
 }
 //@ bound="key universe {Const,Pedersen}, one harness per presence pattern; values symbolic |v| < 2^60"
